@@ -126,16 +126,26 @@ def _parse_xml_string(xml_string, parser, charset=None):
 
 # see http://www.w3.org/TR/2000/NOTE-SOAP-20000508/
 # section 5.2.1 for an example of how the id and href attributes are used.
-def resolve_hrefs(element, xmlids):
+def resolve_hrefs(element, xmlids, _seen=None):
+    if _seen is None:
+        _seen = set()
+
     for e in element:
         if e.get('id'):
             continue # don't need to resolve this element
 
         elif e.get('href'):
-            resolved_element = xmlids[e.get('href').replace('#', '')]
+            href = e.get('href').replace('#', '')
+            resolved_element = xmlids.get(href, None)
             if resolved_element is None:
-                continue
-            resolve_hrefs(resolved_element, xmlids)
+                raise Fault('Client.SoapError',
+                                           'Unresolved reference %r' % (href,))
+
+            if href in _seen:
+                raise Fault('Client.SoapError',
+                                             'Cyclic reference %r' % (href,))
+
+            resolve_hrefs(resolved_element, xmlids, _seen | set([href]))
 
             # copies the attributes
             [e.set(k, v) for k, v in resolved_element.items()]
@@ -147,7 +157,7 @@ def resolve_hrefs(element, xmlids):
             e.text = resolved_element.text
 
         else:
-            resolve_hrefs(e, xmlids)
+            resolve_hrefs(e, xmlids, _seen)
 
     return element
 
